@@ -30,8 +30,10 @@ package datastructures
 //@   assumed
 //@   purefn
 //@   ensures result == forall y V :: sin(sset(recv), y) ==> sin(sset(of), y)
+// (List is modelled as a function of the set object: the order it returns is unspecified but fixed per object)
 //@ func immutableSet.List
 //@   assumed
+//@   purefn
 //@   ensures forall y V :: sin(sset(recv), y) == exists j int :: 0 <= j && j < len(result) && box(result[j]) == y
 //@   ensures len(result) == scard(sset(recv))
 //@ func mutableSet.Add
